@@ -1,2 +1,167 @@
-import SwcVerif.Gen.AlgoRaster
-/-! placeholder (filled below) -/
+import SwcVerif.Props.C20
+import SwcVerif.Refine.Raster
+import SwcVerif.Proofs.Represent
+/-! # C20, the raster logic around the SDF sampler tied to the source by the translator
+
+`Gen.Algo.raster_transform`, `raster_get_samplers`, `raster_get_scene` / `raster_leave`, `tp3f` are regenerated from
+`swcgeom/transforms/image_stack.py` on every run (`Gen/AlgoRaster.lean`) and proved in `Refine/Raster.lean` to compute the hand-written raster
+model of `Model/Images.lean`.  Below, the C20 theorems about that model (`grid_covers`, `bbox_contains`, `degenerate_edge_is_ball`) are restated
+for the code as translated.  Still outside: the sdflit sampler (`sample`, an arbitrary stateful callback here), the SDF of `RoundCone` / `Sphere`,
+the distance `np.linalg.norm` (a function parameter; `edgeSolid_model` assumes it is the Euclidean distance), float rounding. -/
+namespace C20
+open Img Gen.Algo RefineRaster RefineTravFront
+
+/-- **`grid_covers` for the generated `_get_samplers`**: for every box and every resolution with a positive z component the translated generator
+(with fuel ≥ number of slices + 1: it never runs out) yields samplers whose number is the model's; the `i`-th one sits at `zmin + (i + ½)·sz`,
+strictly inside `(zmin, zmax)`; the next centre would reach `zmax` (no slice is dropped); every sampler spans the x/y box from the half-voxel
+offset to the upper corner, and `z … z + sz − 10⁻⁶` -/
+theorem generated_slices (x0 y0 z0 x1 y1 z1 sx sy sz : Rat) (hsz : 0 < sz) (F : Nat) :
+    ∃ ys : List (Py.RangeSampler Rat),
+      raster_get_samplers Py.ratFld ((axisCentres z0 z1 sz).length + 1 + F) [x0, y0, z0] [x1, y1, z1] [sx, sy, sz] = some (ys, ()) ∧
+      z1 ≤ z0 + ((ys.length : Rat) + 1 / 2) * sz ∧
+      ∀ i (h : i < ys.length),
+        ys[i].lo = (x0 + sx / 2, y0 + sy / 2, z0 + ((i : Rat) + 1 / 2) * sz) ∧ z0 < ys[i].lo.2.2 ∧ ys[i].lo.2.2 < z1 ∧
+        ys[i].hi = (x1, y1, ys[i].lo.2.2 + sz - 1 / 1000000) ∧ ys[i].stride = (sx, sy, sz) := by
+  refine ⟨_, samplers_refines x0 y0 z0 x1 y1 z1 sx sy sz hsz F, ?_, ?_⟩
+  · simpa [modelSamplers] using (grid_covers z0 z1 sz hsz).2
+  · intro i h
+    have hi : i < (axisCentres z0 z1 sz).length := by simpa [modelSamplers] using h
+    obtain ⟨e, h1, h2⟩ := (grid_covers z0 z1 sz hsz).1 i hi
+    simp only [modelSamplers, List.getElem_map, slice]
+    rw [e] at h1 h2 ⊢
+    exact ⟨rfl, h1, h2, trivial, trivial⟩
+
+/-- **`bbox_contains` for the generated bounding box**: the box the translated `transform` computes (`RefineRaster.bbox_refines`: it is
+`boxLo` … `boxHi`) has whole-number corners and contains the ball of every node, along every axis -/
+theorem generated_bbox_contains (pts : List Pt) (hne : pts ≠ []) (p : Pt) (hp : p ∈ pts) :
+    (boxLo pts).1 ≤ p.1.1 - p.2 ∧ p.1.1 + p.2 ≤ (boxHi pts).1 ∧
+    (boxLo pts).2.1 ≤ p.1.2.1 - p.2 ∧ p.1.2.1 + p.2 ≤ (boxHi pts).2.1 ∧
+    (boxLo pts).2.2 ≤ p.1.2.2 - p.2 ∧ p.1.2.2 + p.2 ≤ (boxHi pts).2.2 := by
+  obtain ⟨k, hk, rfl⟩ := List.mem_iff_getElem.mp hp
+  have ax : ∀ cx : Pt → Rat, (bboxAx cx pts).1 ≤ cx pts[k] - pts[k].2 ∧ cx pts[k] + pts[k].2 ≤ (bboxAx cx pts).2 := by
+    intro cx
+    have := (bbox_contains (pts.map cx) (radii pts) (by simp [radii]) (by simpa using hne)).2 k (by simpa using hk) (by simpa [radii] using hk)
+    simpa [bboxAx, radii] using this
+  exact ⟨(ax (·.1.1)).1, (ax (·.1.1)).2, (ax (·.1.2.1)).1, (ax (·.1.2.1)).2, (ax (·.1.2.2)).1, (ax (·.1.2.2)).2⟩
+
+/-- the corners of the generated bounding box are whole numbers -/
+theorem generated_bbox_integral (pts : List Pt) :
+    ∃ a b c d e f : Int, boxLo pts = ((a : Rat), (b : Rat), (c : Rat)) ∧ boxHi pts = ((d : Rat), (e : Rat), (f : Rat)) :=
+  ⟨_, _, _, _, _, _, rfl, rfl⟩
+
+/-- **the generated edge rule is the model's** (`Img.edgeIsBall` / `Img.edgeBall`, the place of defect D23): with the Euclidean distance handed to
+the comparison, the solid `leave` adds for an edge is the larger end ball when one end ball contains the other, else the round cone; and for
+non-negative radii that ball IS the union of the swept balls of the edge (`degenerate_edge_is_ball`), the union the property speaks of -/
+theorem generated_edge_rule (dist : Int → Int → Rat) (pts : List Pt) (n c : Int) (hd0 : 0 ≤ dist c n)
+    (hd : dist c n * dist c n = sqd (P pts n).1 (P pts c).1) (hra : 0 ≤ (P pts n).2) (hrb : 0 ≤ (P pts c).2) :
+    (edgeIsBall (P pts n).1 (P pts c).1 (P pts n).2 (P pts c).2 = false →
+      edgeSolid dist pts n c = .cone (P pts n).1 (P pts c).1 (P pts n).2 (P pts c).2) ∧
+    (edgeIsBall (P pts n).1 (P pts c).1 (P pts n).2 (P pts c).2 = true →
+      ∃ ctr rad, edgeSolid dist pts n c = .sphere ctr rad ∧
+        ∀ p : Rat × Rat × Rat,
+          (∃ t, 0 ≤ t ∧ t ≤ 1 ∧ inSwept p (P pts n).1 (P pts c).1 (P pts n).2 (P pts c).2 t = true) ↔ inBall p (ctr, rad) = true) := by
+  rw [edgeSolid_model dist pts n c hd0 hd]
+  constructor
+  · intro h; simp [modelSolid, h]
+  · intro h
+    refine ⟨(edgeBall (P pts n).1 (P pts c).1 (P pts n).2 (P pts c).2).1, (edgeBall (P pts n).1 (P pts c).1 (P pts n).2 (P pts c).2).2,
+      by simp [modelSolid, h], fun p => ?_⟩
+    exact degenerate_edge_is_ball p _ _ _ _ hra hrb h
+
+theorem sceneRose_length (E : Int → Int → Py.Sdf Rat) : ∀ r : Rose, (sceneRose E r).length + 1 = r.size := by
+  have key : ∀ n : Nat, (∀ r : Rose, r.size ≤ n → (sceneRose E r).length + 1 = r.size) ∧
+      (∀ ks : List Rose, sizeL ks ≤ n → (sceneRoseL E ks).length + ks.length = sizeL ks) := by
+    intro n
+    induction n with
+    | zero =>
+      refine ⟨fun r h => ?_, fun ks h => ?_⟩
+      · cases r; simp [Rose.size] at h
+      · cases ks with
+        | nil => simp [sceneRoseL, sizeL]
+        | cons r rs => cases r; simp [sizeL, Rose.size] at h
+    | succ n ih =>
+      have hL : ∀ ks : List Rose, sizeL ks ≤ n + 1 → (sceneRoseL E ks).length + ks.length = sizeL ks := by
+        intro ks
+        induction ks with
+        | nil => intro _; simp [sceneRoseL, sizeL]
+        | cons r rs ihr =>
+          intro h
+          simp only [sizeL] at h
+          have h1 : r.size ≤ n + 1 := by omega
+          have hrs := ihr (by omega)
+          have hr : (sceneRose E r).length + 1 = r.size := by
+            cases r with
+            | node i ks =>
+              simp only [Rose.size] at h1 ⊢
+              have := ih.2 ks (by omega)
+              simp only [sceneRose, List.length_append, List.length_map]
+              omega
+          simp only [sceneRoseL, List.length_append, List.length_cons, sizeL]
+          omega
+      refine ⟨fun r h => ?_, hL⟩
+      cases r with
+      | node i ks =>
+        simp only [Rose.size] at h ⊢
+        have := hL ks (by omega)
+        simp only [sceneRose, List.length_append, List.length_map]
+        omega
+  exact fun r => (key r.size).1 r (Nat.le_refl _)
+
+/-- **the generated `_get_scene` on every well-formed tree**: for every well-formed parent table (a `Tree` object: ids = rows) whose nodes have
+coordinates and radii, the translated `_get_scene` — the `leave` closure through the generated `Tree.traverse` over the generated `_traverse_dfs` —
+never raises, never runs out of fuel, and returns the model scene of the tree's rose: exactly one solid per edge (`n − 1` of them), each chosen by
+`edgeSolid` -/
+theorem generated_scene_every_tree (dist : Int → Int → Rat) (pts : List Pt) (pids : List Int) (hw : C07.WF pids) (hlen : pts.length = pids.length) :
+    ∃ r : Rose, C06.IsTree r pids ∧ (sceneRose (edgeSolid dist pts) r).length + 1 = pids.length ∧ ∀ F : Nat,
+      raster_get_scene dist (2 * r.size + F + 1) (Sub.rangeI pids.length) pids (rowsOf pts) (radii pts)
+        = some (sceneRose (edgeSolid dist pts) r) := by
+  obtain ⟨r, hr⟩ := Represent.wf_represented pids hw
+  refine ⟨r, hr, by rw [sceneRose_length, C06.isTree_size hr], fun F => ?_⟩
+  have hmem : ∀ j ∈ r.ids, 0 ≤ j ∧ j < (pids.length : Int) := fun j hj => by
+    have := (C06.isTree_mem hr j).1 hj
+    omega
+  have hok : Rows r (Sub.rangeI pids.length) := by
+    intro j hj
+    have := hmem j hj
+    simp only [Sub.rangeI, List.length_map, List.length_range]
+    omega
+  exact getScene_refines dist pts _ pids r hr.1 hr.2.2.1 hok (fun j hj => by have := hmem j hj; simp only [ok, hlen]; omega) F
+
+/-- **the generated `transform` on every well-formed tree** (`verbose` falsy, no `ranges`): one frame per slice of the model grid over the model
+bounding box, in order of increasing z, every sampler handed the model scene — for every stateful sampler, every resolution with positive z -/
+theorem generated_transform_every_tree {σ ψ φ : Type} [Inhabited σ] [Inhabited ψ] [Inhabited φ]
+    (sample : σ → Py.RangeSampler Rat → List (Py.Sdf Rat) → σ × ψ) (toFrame : ψ → φ) (dist : Int → Int → Rat)
+    (pts : List Pt) (pids : List Int) (hw : C07.WF pids) (hlen : pts.length = pids.length) (sx sy sz : Rat) (hsz : 0 < sz) (s0 : σ) :
+    ∃ r : Rose, C06.IsTree r pids ∧ ∀ F : Nat,
+      raster_transform sample Py.ratFld Py.ratFlr dist toFrame (nSlices pts sz + 1 + (2 * r.size + F)) (Sub.rangeI pids.length) pids
+          (rowsOf pts) (radii pts) [sx, sy, sz] s0
+        = some ((runFrames sample toFrame (sceneRose (edgeSolid dist pts) r) (modelSamplers (boxLo pts) (boxHi pts) (sx, sy, sz)) (s0, [])).2,
+                (runFrames sample toFrame (sceneRose (edgeSolid dist pts) r) (modelSamplers (boxLo pts) (boxHi pts) (sx, sy, sz)) (s0, [])).1, ()) := by
+  obtain ⟨r, hr, _, hsc⟩ := generated_scene_every_tree dist pts pids hw hlen
+  refine ⟨r, hr, fun F => ?_⟩
+  have hne : pts ≠ [] := by
+    intro h
+    have := hw.pos
+    simp [h] at hlen
+    omega
+  apply transform_refines sample toFrame dist pts hne sx sy sz hsz _ pids _ (2 * r.size + F) s0
+  have := hsc (nSlices pts sz + F)
+  rw [show 2 * r.size + (nSlices pts sz + F) + 1 = nSlices pts sz + 1 + (2 * r.size + F) by omega] at this
+  exact this
+
+/-! non-vacuity, kernel-evaluated on the GENERATED definitions: the chain 0 → 1 → 2 with node 1 tucked inside the ball of node 0 (the first fixed
+degenerate case of the suite): the scene is the cone of the edge 1 → 2 followed by the BALL of node 0 for the edge 0 → 1 … -/
+def exPts : List Pt := [((0, 0, 0), 1), ((0, 1/3, -1/3), 1/2), ((3/2, 1/2, 5/2), 1/2)]
+def exDist : Int → Int → Rat := fun c _ => if c = 1 then 1/2 else 3
+
+example : raster_get_scene exDist 7 [0, 1, 2] [-1, 0, 1] (rowsOf exPts) (radii exPts)
+    = some [.cone (0, 1/3, -1/3) (3/2, 1/2, 5/2) (1/2) (1/2), .sphere (0, 0, 0) 1] := by decide +kernel
+
+/-- … and `transform` at resolution 1 hands `sample` four slices (z = −½, ½, 3⁄2, 5⁄2 of the box [−1, 2] × [−1, 1] × [−1, 3]) with that scene -/
+example : (raster_transform (σ := List (Rat × Nat)) (ψ := Unit) (φ := Unit) (fun log s sc => (log ++ [(s.lo.2.2, sc.length)], ())) Py.ratFld Py.ratFlr
+      exDist (fun _ => ()) 12 [0, 1, 2] [-1, 0, 1] (rowsOf exPts) (radii exPts) [1, 1, 1] []).map (fun r => (r.1.length, r.2.1))
+    = some (4, [(-1/2, 2), (1/2, 2), (3/2, 2), (5/2, 2)]) := by decide +kernel
+
+example : boxLo exPts = (-1, -1, -1) ∧ boxHi exPts = (2, 1, 3) := by decide +kernel
+
+end C20
